@@ -138,6 +138,17 @@ class SymList:
         self.j, self.count, self.elem, self.side = j, count, elem, side
 
 
+class OptV:
+    """an ``Optional[int]`` value: ``none`` (z3 Bool) says whether it is None, ``val`` (z3 Int) is the number
+    otherwise.  ``x is None`` reads ``none``; arithmetic on it raises TypeError on the None branch."""
+
+    def __init__(self, none, val):
+        self.none, self.val = none, val
+
+    def __repr__(self):
+        return f"OptV({self.none}, {self.val})"
+
+
 class SliceV:
     def __init__(self, start, stop, step):
         self.start, self.stop, self.step = start, stop, step
@@ -780,7 +791,15 @@ class Engine:
                 return v != 0
         return None
 
+    def unopt(self, v):
+        if isinstance(v, OptV):
+            if self.branch(v.none):
+                raise Raise("TypeError")
+            return v.val
+        return v
+
     def binop(self, op, l, r):
+        l, r = self.unopt(l), self.unopt(r)
         if isinstance(l, (list, tuple, str)) and not is_sym(l) and isinstance(op, ast.Add) and type(l) is type(r):
             return l + r
         if isinstance(l, (set, frozenset)) and isinstance(r, (set, frozenset)) and _concrete(l) and _concrete(r):
@@ -835,7 +854,11 @@ class Engine:
 
     def cmp(self, op, l, r):
         if isinstance(op, (ast.Is, ast.IsNot)):
-            if l is None or r is None:
+            if isinstance(l, OptV) and r is None:
+                res = l.none
+            elif isinstance(r, OptV) and l is None:
+                res = r.none
+            elif l is None or r is None:
                 res = l is None and r is None
             elif isinstance(l, (Rec, Opaque)) or isinstance(r, (Rec, Opaque)):
                 res = l is r
@@ -1284,7 +1307,7 @@ class Engine:
             if not any(is_sym(x) for x in (a_, b_, c_)):
                 return range(a_, b_, c_)
             return SymRange(a_, b_, c_)
-        if n == "enumerate" and len(args) == 1 and (isinstance(args[0], SymRange) or type(args[0]).__name__ == "SymSeq"):
+        if n == "enumerate" and len(args) == 1 and (isinstance(args[0], SymRange) or any(k.__name__ == "SymSeq" for k in type(args[0]).__mro__)):
             return ("enumerate", args[0])
         if n == "enumerate" and len(args) == 1 and isinstance(args[0], (list, tuple)):
             return list(enumerate(args[0]))
